@@ -100,6 +100,8 @@ def plan(tier):
             for a in range(len(alpha)):
                 for b in range(len(alpha)):
                     units.append((si, ni, (a, b)))
+    for ni in range(len(NEWLINES)):
+        units.append(('scale', ni, None))
     return {
         'units': units,
         'scopes': scopes,
@@ -127,6 +129,8 @@ def _scopes(tier):
 
 
 def run_unit(unit, tier):
+    if unit[0] == 'scale':
+        return run_scale_unit(unit[1])
     si, ni, prefix = unit
     alpha, maxlen = _scopes(tier)[si]
     name, newline = NEWLINES[ni]
@@ -171,7 +175,56 @@ def run_unit(unit, tier):
     return acc
 
 
+def scale_data():
+    """Long inputs at buffer-size boundaries, for every newline sequence:
+    many short lines, one long line, data made only of newlines, a newline
+    straddling each boundary, data starting / ending with (part of) it."""
+    from mc.alphabets import BOUNDARY_SIZES_Q
+    out = []
+    for name, nlb in NEWLINES:
+        n = len(nlb)
+        for size in BOUNDARY_SIZES_Q:
+            out.append((name, b'a' * size))
+            out.append((name, b'a' * size + nlb))
+            out.append((name, nlb + b'a' * size))
+            out.append((name, nlb * (size // n)))
+            out.append((name, (b'ab' + nlb) * (size // (n + 2)) + b'tail'))
+            for k in range(1, n + 1):
+                # the newline begins k bytes before the boundary
+                pre = b'x' * (size - k)
+                out.append((name, pre + nlb + b'y' * 10))
+                out.append((name, pre + nlb[:k]))      # ends in part of it
+            out.append((name, b'\r' * size))
+            out.append((name, b'\x00' * size + nlb))
+    return out
+
+
+def run_scale_unit(ni):
+    acc = Acc()
+    for i, (name, data) in enumerate(scale_data()):
+        if name != NEWLINES[ni][0]:
+            continue
+        newline = dict(NEWLINES)[name]
+        viols, nt = check_one(data, newline)
+        acc.evals += 1
+        acc.states += 1
+        acc.transitions += 2
+        acc.validated += 1
+        acc.nontrivial += 1
+        for key, msg in viols:
+            acc.violation('%s:%s:scale' % (key, name.split('/')[0]),
+                          msg[:300], {'kind': 'scale', 'index': i})
+        acc.outcome('ok-scale' if not viols else 'violation')
+    acc.sample({'scale': 'inputs of 1023..65537 bytes x 10 newlines'}, 1)
+    return acc
+
+
 def replay(payload):
+    if payload.get('kind') == 'scale':
+        name, data = scale_data()[payload['index']]
+        viols, nt = check_one(data, dict(NEWLINES)[name])
+        return [{'key': '%s:%s:scale' % (k, name.split('/')[0]),
+                 'msg': m[:300]} for k, m in viols]
     data = from_jsonable(payload['data'])
     newline = from_jsonable(payload['newline'])
     name = [n for n, b in NEWLINES if b == newline]
